@@ -128,7 +128,7 @@ func (d *driver) replay(id int, s schedule) {
 				continue
 			}
 			pv, _ := d.w.CreatePod(*spec)
-			d.emit(M{"ev": "CreatePod", "pod": a.Pod, "uid": pv.UID})
+			d.emit(M{"ev": "CreatePod", "pod": a.Pod, "uid": pv.UID, "ranges": pv.Ranges})
 		case "DeletePod":
 			if d.w.DeletePod(a.Pod) {
 				delete(d.filtered, a.Pod)
